@@ -1250,6 +1250,16 @@ impl Database {
             Arc::new(TransactionGuard::untracked()),
             resolver.clone(),
         )?;
+        // Everything below parses system tree pages, and none of those parsers can report an
+        // error: a damaged page would panic instead. 2-phase commit only guarantees that the
+        // primary was fully written, not that the file is still intact, so verify the system tree
+        // before trusting it. A mismatch sends the open down the repair path, which reports the
+        // corruption.
+        match system_table_tree.verify_checksums() {
+            Ok(true) => {}
+            Ok(false) | Err(StorageError::Corrupted(_)) => return Ok(None),
+            Err(err) => return Err(err),
+        }
         let Some(allocator_state_table) = system_table_tree
             .get_table::<AllocatorStateKey, &[u8]>(ALLOCATOR_STATE_TABLE_NAME, TableType::Normal)
             .map_err(|e| e.into_storage_error_or_corrupted("Unexpected TableError"))?
